@@ -53,6 +53,9 @@ class Ctx(object):
         self.runs = []          # records of calls into the real code, validated per path
         self.maybe = 0          # decisions taken with an `unknown` feasibility answer
         self.solver_s = 0.0
+        self._implied_stack = [{}]
+        self._fold = {}
+        self._extra_depth = 0
 
     # -- declaring inputs
     def real(self, name, integer=False):
@@ -132,9 +135,12 @@ class Ctx(object):
 
     def _slice(self, e):
         """constraints connected to e through shared variables (cone of influence)"""
+        return self.cone(_vars(e))
+
+    def cone(self, varset):
         allc = self.assumptions + self.path
         vs = [(c, _vars(c), None) for c in allc] + [(c, _vars(c), d) for d, c in self.defs]
-        need = set(_vars(e))
+        need = set(varset)
         chosen = [False] * len(vs)
         changed = True
         while changed:
@@ -185,13 +191,85 @@ class Ctx(object):
     def base(self):
         return list(self.assumptions) + list(self.path) + list(self.side)
 
+    def implied(self, cond, timeout=300):
+        """True / False when the path condition implies / refutes cond (cheap incremental queries), else None"""
+        k = cond.get_id()
+        for lvl in self._implied_stack:
+            # a definite answer derived under fewer assumptions stays valid under more
+            if k in lvl and (lvl[k][1] is not None or lvl is self._implied_stack[-1]):
+                return lvl[k][1]
+        s = self.solver
+        s.set('timeout', timeout)
+        res = None
+        try:
+            s.push()
+            s.add(z3.Not(cond))
+            r = s.check()
+            s.pop()
+            self.nq += 1
+            if r == z3.unsat:
+                res = True
+            else:
+                s.push()
+                s.add(cond)
+                r = s.check()
+                s.pop()
+                self.nq += 1
+                if r == z3.unsat:
+                    res = False
+        finally:
+            s.set('timeout', FEAS_TIMEOUT_MS)
+        self._implied_stack[-1][k] = (cond, res)
+        return res
+
+    def fold(self, t):
+        """contextual simplification: resolve if-then-else conditions (and Boolean connective arguments that
+        are comparisons) already decided by the path condition, bottom-up.  Keeps the term equivalent under
+        the path condition; turns the ite-phrased reference terms into plain polynomials on most paths."""
+        memo = self._fold if not self._extra_depth else {}
+
+        def go(e):
+            k = e.get_id()
+            if k in memo:
+                return memo[k][1]
+            if z3.is_const(e) or z3.is_var(e) or not z3.is_app(e):
+                memo[k] = (e, e)
+                return e
+            dk = e.decl().kind()
+            ch = e.children()
+            if dk == z3.Z3_OP_ITE:
+                c = go(ch[0])
+                c = z3.simplify(c)
+                if z3.is_true(c):
+                    r = go(ch[1])
+                elif z3.is_false(c):
+                    r = go(ch[2])
+                else:
+                    v = self.implied(c)
+                    if v is True:
+                        r = go(ch[1])
+                    elif v is False:
+                        r = go(ch[2])
+                    else:
+                        r = z3.If(c, go(ch[1]), go(ch[2]))
+            else:
+                nch = [go(c) for c in ch]
+                if all(a.eq(b) for a, b in zip(ch, nch)):
+                    r = e
+                else:
+                    r = e.decl()(*nch)
+            memo[k] = (e, r)
+            return r
+        return go(t)
+
 
 _VARS_CACHE = {}
 
 
 def _vars(e):
     k = e.get_id()
-    r = _VARS_CACHE.get(k)
+    hit = _VARS_CACHE.get(k)
+    r = hit[1] if hit is not None else None
     if r is None:
         r = set()
         seen = set()
@@ -209,7 +287,7 @@ def _vars(e):
         r = frozenset(r)
         if len(_VARS_CACHE) > 200000:
             _VARS_CACHE.clear()
-        _VARS_CACHE[k] = r
+        _VARS_CACHE[k] = (e, r)     # holding e keeps its AST id from being reused
     return r
 
 
@@ -500,52 +578,115 @@ class Result(object):
         self.exhausted = True
 
 
-def check_obligations(base, obs, seed=0, timeout=60000):
-    """-> list of (label, status, model-or-None); status in unsat/sat/unknown.  One batched query first."""
-    out = []
-    if not obs:
-        return out, 0
+def first_ite_condition(t):
+    """condition of the first if-then-else (pre-order) whose condition is not a constant"""
+    seen = set()
+    stack = [t]
+    while stack:
+        e = stack.pop()
+        i = e.get_id()
+        if i in seen or not z3.is_app(e):
+            continue
+        seen.add(i)
+        if e.decl().kind() == z3.Z3_OP_ITE:
+            c = e.arg(0)
+            if not (z3.is_true(c) or z3.is_false(c)):
+                return c
+        stack.extend(reversed(e.children()))
+    return None
+
+
+def prove(ctx, o, cone, seed, timeout, depth=0, extras=(), budget=None):
+    """decide obligation o under the path condition by case-splitting on undecided if-then-else conditions
+    (each leaf is an ite-free query); -> (status, model, queries)"""
+    if budget is None:
+        budget = [64]
+    f = z3.simplify(ctx.fold(o), som=True)
+    if z3.is_true(f):
+        return 'unsat', None, 0
+    c = first_ite_condition(f) if depth < 10 and budget[0] > 0 else None
+    if c is None:
+        r, m = _solve(list(cone) + list(extras) + [z3.Not(f)], seed, timeout)
+        return ('unsat' if r == z3.unsat else ('sat' if r == z3.sat else 'unknown')), m, 1
+    budget[0] -= 1
     nq = 0
+    worst = 'unsat'
+    for lit in (c, z3.Not(c)):
+        ctx.solver.push()
+        ctx.solver.add(lit)
+        ctx._extra_depth += 1
+        ctx._implied_stack.append({})
+        try:
+            ctx.solver.set('timeout', 300)
+            feasible = ctx.solver.check()
+            ctx.solver.set('timeout', FEAS_TIMEOUT_MS)
+            nq += 1
+            if feasible == z3.unsat:
+                continue
+            st, m, q = prove(ctx, f, cone, seed, timeout, depth + 1, tuple(extras) + (lit,), budget)
+            nq += q
+        finally:
+            ctx._extra_depth -= 1
+            ctx._implied_stack.pop()
+            ctx.solver.pop()
+        if st == 'sat':
+            return 'sat', m, nq
+        if st == 'unknown':
+            worst = 'unknown'
+    return worst, None, nq
+
+
+def _solve(cons, seed, timeout):
     s = z3.Solver()
     s.set('timeout', timeout)
     s.set('random_seed', seed)
-    s.add(*base)
-    s.add(z3.Not(z3.And(*[o for _, o in obs])))
+    s.add(*cons)
     r = s.check()
-    nq += 1
-    if r == z3.unsat:
-        return [(label, 'unsat', None) for label, _ in obs], nq
+    return r, (s.model() if r == z3.sat else None)
+
+
+def check_obligations(ctx, obs, seed=0, timeout=60000):
+    """-> list of (label, status, model-or-None); status in unsat/sat/unknown.
+    Every obligation is decided against the cone of influence of its variables only (constraints of the
+    path that share no variable, transitively, with the obligation are dropped: sound, because a path whose
+    remaining constraints were unsatisfiable would be infeasible as a whole).  Obligations with the same
+    cone are batched into one query; on failure of the batch they are decided one by one."""
+    out = {}
+    nq = 0
+    groups = {}
+    order = []
+    obs = [((i, label), o) for i, (label, o) in enumerate(obs)]
     for label, o in obs:
-        s = z3.Solver()
-        s.set('timeout', timeout)
-        s.set('random_seed', seed)
-        s.add(*base)
-        s.add(z3.Not(o))
-        r = s.check()
-        nq += 1
-        if r == z3.unsat:
-            out.append((label, 'unsat', None))
-        elif r == z3.sat:
-            out.append((label, 'sat', s.model()))
-        else:
-            # second opinion: simplified goal through the nlsat / qfnra tactic pipeline
-            r2 = z3.unknown
-            try:
-                t = z3.Then('simplify', 'solve-eqs', 'smt').solver()
-                t.set('timeout', timeout)
-                t.add(*base)
-                t.add(z3.Not(o))
-                r2 = t.check()
-                nq += 1
-            except z3.Z3Exception:
-                pass
-            if r2 == z3.unsat:
-                out.append((label, 'unsat', None))
-            elif r2 == z3.sat:
-                out.append((label, 'sat', t.model()))
-            else:
-                out.append((label, 'unknown', None))
-    return out, nq
+        o = z3.simplify(o)
+        if not z3.is_true(o):
+            o = z3.simplify(ctx.fold(o), som=True)
+        if z3.is_true(o):
+            out[label] = ('unsat', None)
+            continue
+        cone = ctx.cone(_vars(o))
+        key = frozenset(c.get_id() for c in cone)
+        if key not in groups:
+            groups[key] = (cone, [])
+            order.append(key)
+        groups[key][1].append((label, o))
+    for key in order:
+        cone, items = groups[key]
+        if len(items) > 1:
+            r, _ = _solve(list(cone) + [z3.Not(z3.And(*[o for _, o in items]))], seed, min(timeout, 2000))
+            nq += 1
+            if r == z3.unsat:
+                for label, _ in items:
+                    out[label] = ('unsat', None)
+                continue
+        for label, o in items:
+            st, m, q = prove(ctx, o, cone, seed, timeout)
+            nq += q
+            out[label] = (st, m)
+    res = []
+    for label, _ in obs:
+        st, m = out[label]
+        res.append((label[1], st, m))
+    return res, nq
 
 
 def explore(harness, max_paths=20000, seed=0, ob_timeout=60000, start=None, depth_cut=None,
@@ -589,7 +730,7 @@ def explore(harness, max_paths=20000, seed=0, ob_timeout=60000, start=None, dept
             obs = out.get('obligations', [])
             res.obligations += len(obs)
             t0 = time.time()
-            statuses, nq = check_obligations(c.base(), obs, seed, ob_timeout)
+            statuses, nq = check_obligations(c, obs, seed, ob_timeout)
             c.nq += nq
             res.discharged += sum(1 for _, st, _ in statuses if st == 'unsat')
             for label, st, _ in statuses:
